@@ -133,7 +133,11 @@ def gen_history(rnd, nkeys, steps):
             p_ins = rnd.choice([0.15, 0.3, 0.45, 0.5, 0.55, 0.7, 0.85])
         left -= 1
         r = rnd.random()
-        if member and r < 0.07:
+        if member and r < 0.02:
+            # the same, with the node object that is already in the tree ("register again"): fails, changes nothing
+            n = rnd.choice(list(member))
+            lines.append("I %d %d" % (n, member[n]))
+        elif member and r < 0.07:
             n = free[rnd.randrange(len(free))]
             k = rnd.choice(list(present))
             lines.append("I %d %d" % (n, k))            # duplicate: must fail
@@ -567,7 +571,9 @@ def compare_triples(results, index):
                 e = json.loads(line)
                 compared += 1
                 real = struct_of(e, None)
+                real.pop("scale", None)
                 model = dict(t["post"], key=None)
+                model.pop("scale", None)
                 if real != model or e["ret"] != t["ret"]:
                     mism.append((res["trace"], ln))
         # every triple of this file must have been reached unless the harness died
